@@ -69,7 +69,7 @@ def _std_lean_path():
 def translate(pyx=False):
     try:
         fn = {False: py2lean.generate, True: py2lean.generate_pyx, 'classes': py2lean.generate_classes,
-              'classes2': py2lean.generate_classes2, 'isilen': py2lean.generate_isi_lengths}[pyx]
+              'classes2': py2lean.generate_classes2, 'classes3': py2lean.generate_classes3, 'isilen': py2lean.generate_isi_lengths}[pyx]
         return fn(REPO), None
     except py2lean.Untranslatable as ex:
         return None, str(ex)
@@ -77,7 +77,7 @@ def translate(pyx=False):
         return None, 'source could not be read: %r' % ex
 
 
-GEN_MODULE = {False: 'Backend', True: 'BackendPyx', 'classes': 'Classes', 'classes2': 'Classes2', 'isilen': 'IsiLengths'}
+GEN_MODULE = {False: 'Backend', True: 'BackendPyx', 'classes': 'Classes', 'classes2': 'Classes2', 'classes3': 'Classes3', 'isilen': 'IsiLengths'}
 
 
 def _imports_of(path):
@@ -502,3 +502,14 @@ def gen_tie_isi_lengths(tier, rng):
         return _validate_ops(cases, lean_path, 'GenClsMain.lean')
     return _family('isilen', os.path.join(LEAN_DIR, 'PySpikeVerif', 'Gen', 'IsiLengths.lean'), 'isi_lengths',
                    ['pyspike/isi_lengths.py (isi_lengths)'], val)
+
+
+def gen_tie_interval_lists(tier, rng):
+    """avrg / integral with a LIST of intervals (Gen/Classes3.lean), C05 / C10 / C11"""
+    from . import suites
+    def val(lean_path):
+        ops = ('pwc_avrg_list', 'pwl_avrg_list', 'disc_integral_list')
+        cases = [(op, f) for op, f, _ in suites.SUITES['f-func'](tier, rng) if op in ops][:(1500 if tier == 'quick' else 8000)]
+        return _validate_ops(cases, lean_path, 'GenClsMain.lean')
+    return _family('classes3', os.path.join(LEAN_DIR, 'PySpikeVerif', 'Gen', 'Classes3.lean'), 'interval lists',
+                   ['pyspike/PieceWiseConstFunc.py (avrg)', 'pyspike/PieceWiseLinFunc.py (avrg)', 'pyspike/DiscreteFunc.py (integral)'], val)
